@@ -266,6 +266,117 @@ func c02DeadlineThenPause(r *fw.Run, p *Pair, tr string, k int) {
 	r.Case(fw.Hash("dlpause", tr, fmt.Sprint(k)), true)
 }
 
+// c03Pipelined: two calls are sent before the first reply is read; each receive function yields its own call's replies.
+func c03Pipelined(r *fw.Run, p *Pair, jg *JGen, k int) {
+	cs := map[string]interface{}{"what": "two calls in flight on one connection (Send, Send, receive..., receive...)", "transport": p.Transport}
+	p.Proxy.TakeConns()
+	p.Rig.Log.Take()
+	p.Proxy.Reseg = int32([]int{0, 2}[k%2])
+	ctx, cancel := context.WithTimeout(context.Background(), 25*time.Second)
+	defer cancel()
+	conn, err := p.Connect(ctx)
+	if err != nil {
+		r.Inconclusive("connect: %v", err)
+		return
+	}
+	defer closeBounded(conn, 15*time.Second)
+	mk := func(id string, n int) (*CallScript, []string) {
+		sc := &CallScript{ID: id}
+		var want []string
+		for i := 0; i < n; i++ {
+			w := fmt.Sprintf(`{"call":%q,"i":%d,"v":%s}`, id, i, jg.Value(2))
+			want = append(want, w)
+			sc.Steps = append(sc.Steps, Step{Op: "reply", Cont: i < n-1, Raw: json.RawMessage(w)})
+		}
+		return sc, want
+	}
+	na, nb := 1+k%4, 1+(k/2)%3
+	sa, wa := mk(fmt.Sprintf("pa%d", k), na)
+	sb, wb := mk(fmt.Sprintf("pb%d", k), nb)
+	ra, err := conn.Send(ctx, pairMethod, sa, varlink.More)
+	if err != nil {
+		r.Violation("C03 send-failed", fmt.Sprintf("transport %s: %v", p.Transport, err), cs)
+		return
+	}
+	rb, err := conn.Send(ctx, pairMethod, sb, varlink.More)
+	if err != nil {
+		r.Violation("C03 send-failed", fmt.Sprintf("transport %s: second Send while the first call's replies are unread: %v", p.Transport, err), cs)
+		return
+	}
+	for ci, set := range []struct {
+		recv func(context.Context, interface{}) (uint64, error)
+		want []string
+	}{{ra, wa}, {rb, wb}} {
+		for i, w := range set.want {
+			var out json.RawMessage
+			fl, err := set.recv(ctx, &out)
+			if err != nil {
+				r.Violation("C03 receive-failed", fmt.Sprintf("transport %s: two calls in flight; call %d reply %d of %d: receive returned %T %v", p.Transport, ci, i, len(set.want), err, err), cs)
+				return
+			}
+			if d := jEqualParams([]byte(w), out); d != "" {
+				r.Violation("C03 reply-parameters-changed", fmt.Sprintf("transport %s: two calls in flight; call %d reply %d: %s", p.Transport, ci, i, d), cs)
+			}
+			if (fl&varlink.Continues != 0) == (i == len(set.want)-1) {
+				r.Violation("C03 continues-indication", fmt.Sprintf("transport %s: two calls in flight; call %d reply %d of %d: flags %d", p.Transport, ci, i, len(set.want), fl), cs)
+			}
+		}
+	}
+	r.Count("pipelined_call_pairs", 1)
+	r.Case(fw.Hash("pipelined", p.Transport, fmt.Sprint(k)), true)
+}
+
+// c03Monitor: a handler that sends a continues-reply and then waits for an event; the client must receive that reply
+// while the handler is still waiting.
+func c03Monitor(r *fw.Run, p *Pair, k int) {
+	cs := map[string]interface{}{"what": "continues-reply, then the handler waits", "transport": p.Transport}
+	p.Proxy.TakeConns()
+	p.Rig.Log.Take()
+	p.Proxy.Reseg = 0
+	ctx, cancel := context.WithTimeout(context.Background(), 25*time.Second)
+	defer cancel()
+	conn, err := p.Connect(ctx)
+	if err != nil {
+		r.Inconclusive("connect: %v", err)
+		return
+	}
+	defer closeBounded(conn, 15*time.Second)
+	wname := fmt.Sprintf("wait:%s:%d:%d", p.Transport, k, r.Seq())
+	defer p.Rig.Release(wname)
+	nfirst := 1 + k%3
+	sc := &CallScript{ID: fmt.Sprintf("mon%d", k)}
+	for i := 0; i < nfirst; i++ {
+		sc.Steps = append(sc.Steps, Step{Op: "reply", Cont: true, Raw: json.RawMessage(fmt.Sprintf(`{"event":%d}`, i))})
+	}
+	sc.Steps = append(sc.Steps, Step{Op: "hook", Name: wname}, Step{Op: "reply", Raw: json.RawMessage(`{"event":"last"}`)})
+	recv, err := conn.Send(ctx, pairMethod, sc, varlink.More)
+	if err != nil {
+		r.Violation("C03 send-failed", fmt.Sprintf("transport %s: %v", p.Transport, err), cs)
+		return
+	}
+	for i := 0; i < nfirst; i++ {
+		rctx, rcancel := context.WithTimeout(ctx, 10*time.Second)
+		var out json.RawMessage
+		fl, err := recv(rctx, &out)
+		rcancel()
+		if err != nil {
+			r.Violation("C03 reply-withheld", fmt.Sprintf("transport %s: the handler sent %d continues-replies and is now waiting for an event; receive #%d did not yield within 10 s: %v", p.Transport, nfirst, i, err), cs)
+			return
+		}
+		if d := jEqualParams([]byte(fmt.Sprintf(`{"event":%d}`, i)), out); d != "" || fl&varlink.Continues == 0 {
+			r.Violation("C03 reply-parameters-changed", fmt.Sprintf("transport %s: monitor reply %d: %s flags=%d", p.Transport, i, d, fl), cs)
+		}
+	}
+	p.Rig.Release(wname)
+	var out json.RawMessage
+	fl, err := recv(ctx, &out)
+	if err != nil || fl&varlink.Continues != 0 || jEqualParams([]byte(`{"event":"last"}`), out) != "" {
+		r.Violation("C03 reply-parameters-changed", fmt.Sprintf("transport %s: last monitor reply: err=%v flags=%d out=%s", p.Transport, err, fl, clip(string(out), 80)), cs)
+	}
+	r.Count("monitor_style_calls", 1)
+	r.Case(fw.Hash("monitor", p.Transport, fmt.Sprint(k)), true)
+}
+
 // closeBounded closes a client connection; false if Close did not return within the bound.
 func closeBounded(conn *varlink.Connection, bound time.Duration) bool {
 	ch := make(chan struct{})
@@ -378,6 +489,8 @@ func runC03(r *fw.Run) {
 		}
 		for k := 0; k < r.Pick(12, 100) && r.ViolationCount() <= 12; k++ {
 			c03LateRead(r, p, k)
+			c03Pipelined(r, p, jg, k)
+			c03Monitor(r, p, k)
 		}
 		r.Distinct("transports", tr)
 		if err, ok := p.Close(); !ok {
